@@ -45,7 +45,7 @@ def gen_workload(rng, tier):
             if not free:
                 continue
             name = rng.choice(free)
-            si = rng.choice([0, 1, 2, 3])
+            si = rng.choice([0, 1, 2, 3, 5, 5])
             live[name] = [si, 0]
             stmts.append(({"sql": f"create table {name}({SCHEMAS[si][0]})"}, "create", (name, si)))
         elif kind == "drop":
